@@ -27,12 +27,16 @@ using std::string;
 namespace vf {
 inline std::vector<std::string>& trace() { static std::vector<std::string> t; return t; }
 inline int& next_oid() { static int n = 100; return n; }
+struct Quiet {};   // tag: construct a library object without recording a call
 struct Obj {
   int oid_;
   Obj() : oid_(++next_oid()) {}
   Obj(const Obj& o) : oid_(o.oid_) {}
   Obj& operator=(const Obj& o) { oid_ = o.oid_; return *this; }
 };
+// default value of any library type, constructed without recording a call
+template <typename T, typename = void> struct Make { static T get() { return T(); } };
+template <typename T> struct Make<T, typename std::enable_if<std::is_base_of<Obj, T>::value>::type> { static T get() { return T(Quiet()); } };
 template <typename T> std::string tn() {
   std::string p = __PRETTY_FUNCTION__;
   auto a = p.find("T = ") + 4;
@@ -40,6 +44,8 @@ template <typename T> std::string tn() {
   std::string s = p.substr(a, b - a);
   // g++ spells "unsigned char" etc. as written; drop spaces after commas for a canonical form
   std::string o; for (size_t i = 0; i < s.size(); ++i) { if (s[i] == ' ' && i && s[i-1] == ',') continue; o += s[i]; }
+  const std::string long_name = "std::__cxx11::basic_string<char>";
+  for (size_t p = o.find(long_name); p != std::string::npos; p = o.find(long_name)) o.replace(p, long_name.size(), "std::string");
   return o;
 }
 inline std::string repr(int v) { return std::to_string(v); }
@@ -185,7 +191,7 @@ class MockGen:
         elif self._is_enum(q, this):
             v = '(%s)%d' % (ct, 9)
         else:
-            v = '%s()' % ct
+            v = 'vf::Make<%s>::get()' % ct
         if m == '*':
             return 'std::make_shared<%s>(%s)' % (ct, v)
         if m == '@':
@@ -266,6 +272,9 @@ class MockGen:
                 nm = cname + ' + "::%s"' % d['n'] + self.targs_expr(mtp)
                 b, E = self.body(nm, '0', m['a'], None, this, tps)
                 out += '%s%s%s(%s) %s\n' % (i2, self.tpl_head(m.get('tpl')), d['n'], self.params(m['a'], this, tps), b)
+            elif k == 'method' and m['n'] == 'objId':
+                # the harness's own accessor: not recorded in the trace
+                out += '%sint objId() const { return this->oid_; }\n' % i2
             elif k in ('method', 'static'):
                 nm = cname + ' + "::%s"' % m['n'] + self.targs_expr(mtp)
                 b, E = self.body(nm, 'this->oid_' if k == 'method' else '0', m['a'], m['r'], this, tps)
@@ -291,6 +300,7 @@ class MockGen:
                    '%sstd::vector<int>::const_iterator end() const { return items_.end(); }\n' % (i2, i2, i2)
         if not has_default and not any(m['k'] == 'ctor' and not m['a'] for m in d['m']):
             out += '%s%s() {}\n' % (i2, d['n'])
+        out += '%sexplicit %s(vf::Quiet) {}\n' % (i2, d['n'])
         if d['v']:
             out += '%svirtual ~%s() {}\n' % (i2, d['n'])
         out += ind + '};\n'
@@ -310,7 +320,7 @@ class MockGen:
                 if '::' not in d['q']:
                     n = self.td_targets.get(d['q'])
                     head = 'template <%s> ' % ', '.join('typename T%d' % i for i in range(n)) if n else ''
-                    out += '%s%sclass %s : public vf::Obj {};\n' % (ind, head, d['q'])
+                    out += '%s%sclass %s : public vf::Obj { public: %s() {} explicit %s(vf::Quiet) {} };\n' % (ind, head, d['q'], d['q'], d['q'])
             elif k == 'func':
                 tps = [p['n'] for p in (d['tpl'] or [])]
                 nm = 'std::string("%s")' % '::'.join(path + [d['n']]) + self.targs_expr(tps)
